@@ -378,7 +378,7 @@ def one_fingerprint(job):
                 sc = scen.sd_to_scenario(ast.literal_eval(job["sd"]))
             else:
                 sc = nasim.make_benchmark_scenario(job["name"], seed=job["seed"])
-            env = NASimEnv(sc, fully_obs=job["modes"][0], flat_actions=True, flat_obs=job["modes"][2])
+            env = NASimEnv(sc, fully_obs=job["modes"][0], flat_actions=bool(job["modes"][1]), flat_obs=job["modes"][2])
             for call in job.get("earlier", []):
                 # what the environment object went through before the seeded run (Gymnasium API)
                 if call[0] == "reset_seed":
@@ -395,7 +395,12 @@ def one_fingerprint(job):
             h.update(o.tobytes())
             rs = np.random.RandomState(job["seed"] + 2)
             for _ in range(job["steps"]):
-                a = int(rs.randint(env.action_space.n))
+                if job["modes"][1]:
+                    a = int(rs.randint(env.action_space.n))
+                else:
+                    a = [int(rs.randint(n_)) for n_ in env.action_space.nvec]     # many of them decode to the no-op
+                    scratch = np.full(o.shape, float(rs.randint(1000)), dtype=o.dtype)     # ordinary allocations in between
+                    del scratch
                 o, r, d, t, info = env.step(a)
                 h.update(o.tobytes())
                 h.update(repr((float(r), bool(d), bool(t), bool(info["success"]))).encode())
@@ -443,6 +448,9 @@ def run(ctx, spec):
     # OS-specific definitions, no escalation at all / more escalations than processes is excluded (D8)
     psets.append(("combo0", dict(num_hosts=8, num_services=3, num_os=2, num_processes=2, random_goal=True,
                                  address_space_bounds=(12, 9), restrictiveness=2, step_limit=300)))
+    # as many exploits as there are (service, os) names, so that every name is used
+    psets.append(("combo2", dict(num_hosts=6, num_services=2, num_os=2, num_processes=2, num_exploits=6, restrictiveness=2,
+                                 step_limit=300)))
     psets.append(("combo1", dict(num_hosts=13, num_services=2, num_os=3, num_processes=3, random_goal=True, uniform=True,
                                  address_space_bounds=(20, 5), restrictiveness=1, exploit_probs=None, privesc_probs=None)))
     # host counts around the boundaries of the subnet arithmetic (multiples of 40, 41 and 5)
@@ -648,6 +656,8 @@ def run(ctx, spec):
         for name in list(bench)[:6]:
             jobs.append(dict(kind="bench", name=name, seed=3))
             jobs.append(dict(kind="traj", name=name, seed=5, steps=sizes["traj_steps"], modes=[rng.randrange(2), 1, rng.randrange(2)]))
+            # parameterised actions, partially observable: random vectors (most decode to the no-op)
+            jobs.append(dict(kind="traj", name=name, seed=6, steps=sizes["traj_steps"], modes=[0, 0, rng.randrange(2)]))
         # the same document after environments for OTHER scenarios were built in the process (the same names
         # in another order; another layout): the trajectory must be the one of a process that built only it
         for _ in range(sizes.get("seeds_small", 2) * 2):
